@@ -30,7 +30,9 @@ def run_one(path):
             fp = os.path.join(dst, e["file"])
             s = open(fp).read()
             cnt = s.count(e["old"])
-            if cnt != e.get("count", 1):
+            if e.get("count", 1) == -1 and cnt >= 1:
+                pass
+            elif cnt != e.get("count", 1):
                 res["status"] = "STALE"
                 res["detail"] = "edit anchor occurs %d times in %s (expected %d)" % (cnt, e["file"], e.get("count", 1))
                 return res
